@@ -117,6 +117,7 @@ macro_rules! regn {
                 let clone_eq = w.clone() == w;
                 let mut wire: Vec<Value> = Vec::new();
                 let mut pad = "na".to_string();
+                let mut bad = serde_json::Map::new();
                 let r: Result<Wn, String> = match enc {
                     "json" => {
                         let text = serde_json::to_string(&w).unwrap();
@@ -137,6 +138,25 @@ macro_rules! regn {
                                 };
                             }
                         }
+                        if let Some(archs) = v[0].as_array() {
+                            if !archs.is_empty() {
+                                let verdict = |m: Value| -> &'static str {
+                                    match serde_json::from_value::<Wn>(m) { Ok(_) => "accepted", Err(_) => "rejected" }
+                                };
+                                // an identifier of the wrong width (one byte short / one byte long)
+                                let mut m = v.clone();
+                                m[0][0][0].as_array_mut().unwrap().pop();
+                                bad.insert("short".into(), json!(verdict(m)));
+                                let mut m = v.clone();
+                                m[0][0][0].as_array_mut().unwrap().push(json!(0));
+                                bad.insert("long".into(), json!(verdict(m)));
+                                // the same table twice
+                                let mut m = v.clone();
+                                let first = m[0][0].clone();
+                                m[0].as_array_mut().unwrap().push(first);
+                                bad.insert("dup".into(), json!(verdict(m)));
+                            }
+                        }
                         serde_json::from_str::<Wn>(&text).map_err(|e| format!("{e}"))
                     }
                     "tok_hr" | "tok_bin" => {
@@ -149,7 +169,7 @@ macro_rules! regn {
                     _ => panic!("harness: bad enc"),
                 };
                 match r {
-                    Err(e) => json!({"pre": pre, "clone_eq": clone_eq, "wire": wire, "pad": pad, "ok": false, "err": e,
+                    Err(e) => json!({"pre": pre, "clone_eq": clone_eq, "wire": wire, "pad": pad, "bad": Value::Object(bad.clone()), "ok": false, "err": e,
                                      "eq": false, "same_ids": false, "post": pre, "post2": pre}),
                     Ok(mut w2) => {
                         let eq = w2 == w && w == w2;
@@ -172,7 +192,7 @@ macro_rules! regn {
                         }
                         let post = observe(&mut w, &ids1);
                         let post2 = observe(&mut w2, &ids2);
-                        json!({"pre": pre, "clone_eq": clone_eq, "wire": wire, "pad": pad, "ok": true, "err": "",
+                        json!({"pre": pre, "clone_eq": clone_eq, "wire": wire, "pad": pad, "bad": Value::Object(bad.clone()), "ok": true, "err": "",
                                "eq": eq, "same_ids": same_ids, "post": post, "post2": post2})
                     }
                 }
